@@ -1284,7 +1284,7 @@ func (w *vzWorld) judgeLull() {
 func (w *vzWorld) finalChecks() {
 	if (w.endReason == "done" || w.endReason == "quiescent") && !w.s.Failed() && !w.s.Expired() {
 		// let whatever is still inside the nodes finish (a commit may be between two store writes)
-		for i := 0; i < 3000; i++ {
+		for i := 0; i < 40000; i++ {
 			vsimcore.Wait()
 			ps := w.s.Parked()
 			if len(ps) == 0 {
@@ -1335,15 +1335,28 @@ func (w *vzWorld) finalChecks() {
 		}()
 		var sn snap
 		got := false
-		for i := 0; i < 400 && !got; i++ {
+		// one park at a time, in name order: what runs between two quiescent points is one goroutine's
+		// step, so the event log of this phase is as repeatable as the rest of the run
+		for i := 0; i < 40000 && !got; i++ {
 			vsimcore.Wait()
 			select {
 			case sn = <-done:
 				got = true
 			default:
-				for _, n := range w.s.Parked() {
-					w.s.Release(n)
+				ps := w.s.Parked()
+				if len(ps) == 0 {
+					i = 40000
+					break
 				}
+				w.s.Release(ps[0])
+			}
+		}
+		if !got {
+			vsimcore.Wait()
+			select {
+			case sn = <-done:
+				got = true
+			default:
 			}
 		}
 		vsimcore.Wait()
@@ -1356,16 +1369,14 @@ func (w *vzWorld) finalChecks() {
 		if current && got && sn.err == nil {
 			// everything that was parked has run: the consumers have been served whatever was pending
 			drained := false
-			for i := 0; i < 3000; i++ {
+			for i := 0; i < 40000; i++ {
 				vsimcore.Wait()
 				ps := w.s.Parked()
 				if len(ps) == 0 {
 					drained = true
 					break
 				}
-				for _, n := range ps {
-					w.s.Release(n)
-				}
+				w.s.Release(ps[0])
 			}
 			vsimcore.Wait()
 			if drained {
